@@ -80,6 +80,12 @@ def rand_tensor(g, shape, mode):
     return p
 
 
+def translate(ctx):
+    """regenerate lean/QGen/C16.lean from /repo's index_util.py, probability.py, multinomial_distribution.py (c16_translate.py)"""
+    import c16_translate
+    return c16_translate.translate()
+
+
 def correspondence(ctx):
     drv = Driver("C16")
     pend = []
@@ -94,6 +100,9 @@ def correspondence(ctx):
             ser = index_util.index_serial_from_index_multi_dimensional(sh, tuple(mi))
             i2 = drv.ask("serial", ilist(sh), ilist(mi))
             pend.append(("serial", (sh, list(mi)), f"ok {ser}", i2))
+            # the same requests to the definitions regenerated from the source on this run
+            pend.append(("gmulti", (sh, s), "ok " + ilist(mi), drv.ask("gmulti", ilist(sh), s)))
+            pend.append(("gserial", (sh, list(mi)), f"ok {ser}", drv.ask("gserial", ilist(sh), ilist(mi))))
             ctx.case(("idx", tuple(sh), s), nontrivial=len(sh) > 1,
                      sample={"op": "multi/serial", "shape": sh, "serial": s, "multi": list(mi)})
         ctx.count(f"index shapes nvars={len(sh)}")
@@ -103,12 +112,14 @@ def correspondence(ctx):
         for s in (n, n + 1, 2 * n + 1):
             mi = index_util.index_multi_dimensional_from_index_serial(sh, s)
             pend.append(("multi", (sh, s), "ok " + ilist(mi), drv.ask("multi", ilist(sh), s)))
+            pend.append(("gmulti", (sh, s), "ok " + ilist(mi), drv.ask("gmulti", ilist(sh), s)))
         try:
             index_util.index_serial_from_index_multi_dimensional(sh, tuple([0] * (len(sh) + 1)))
             r = "ok"
         except ValueError:
             r = "err lenMismatch"
         pend.append(("serial", (sh, "len+1"), r, drv.ask("serial", ilist(sh), ilist([0] * (len(sh) + 1)))))
+        pend.append(("gserial", (sh, "len+1"), r, drv.ask("gserial", ilist(sh), ilist([0] * (len(sh) + 1)))))
         ctx.count("index error/wrap cases")
     # --- distributions
     g = ctx.npgen(1)
@@ -188,16 +199,82 @@ def correspondence(ctx):
         pend.append((req[0], name, a, drv.ask(*req)))
         ctx.count("dist error branches")
         ctx.case(("bad", name))
+    _ensemble_correspondence(ctx, drv, pend)
     out = drv.run()
     for op, inp, impl, i in pend:
         ctx.corr_ops.add(op)
-        if op in ("multi", "serial", "pdget"):
+        if op in ("multi", "serial", "pdget", "gmulti", "gserial", "ensget", "extend", "nested"):
             if out[i] != impl:
                 ctx.disagree(op, inp, impl, out[i])
         else:
             m = parse_dist(out[i]) if out[i] != "bad-op" else ("bad-op",)
             if m[0] == "bad-op" or not same_dist(impl, m):
                 ctx.disagree(op, inp, impl, out[i])
+
+
+def _label(vec, refs):
+    """index of the reference vector equal to vec (refs are pairwise distinct random states), else -1"""
+    hits = [k for k, r in enumerate(refs) if np.allclose(vec, r, atol=1e-9)]
+    return hits[0] if len(hits) == 1 else -1
+
+
+def _ensemble_correspondence(ctx, drv, pend):
+    """the list bookkeeping of state ensembles: `StateEnsemble.state(tuple)`, the extend-loop of MProcess∘StateEnsemble and the
+    nested loops of StateEnsemble⊗StateEnsemble, each compared with the model's `ensGet` / `extendLoop` / `nestedLoop`"""
+    import qobj
+    from quara.objects.operators import compose_qoperations, tensor_product
+    from quara.objects.state_ensemble import StateEnsemble
+    g = ctx.npgen(7)
+    c_sys = qobj.csys("qubit")
+    d = c_sys.dim
+    # --- ensget: tuple access on a hand-built ensemble of pairwise distinct members
+    for sh in ([2, 3], [3, 2], [2, 2, 3], [4], [3, 1, 2]):
+        n = int(np.prod(sh))
+        sts = [qobj.State(c_sys, qobj.vec_of(c_sys, qobj.rand_density(g, d))) for _ in range(n)]
+        ens = StateEnsemble(sts, MultinomialDistribution(np.full(n, 1.0 / n), tuple(sh)))
+        idxs = list(itertools.product(*[range(x) for x in sh]))
+        idxs += [tuple([0] * (len(sh) + 1)), tuple(list(idxs[-1][:-1]) + [sh[-1]]), tuple([x for x in sh])]  # wrong length, overflow
+        for mi in idxs:
+            try:
+                st = ens.state(tuple(int(x) for x in mi))
+                k = [i for i, s_ in enumerate(sts) if s_ is st]
+                a = f"ok {k[0]}"
+            except (ValueError, IndexError):
+                a = "err index"
+            pend.append(("ensget", (sh, list(mi)), a, drv.ask("ensget", ilist(range(n)), ilist(sh), ilist(mi))))
+            ctx.case(("ensget", tuple(sh), tuple(mi)), nontrivial=len(sh) > 1)
+        ctx.count("ensemble tuple-access shapes")
+    # --- extend: order of the members of MProcess∘StateEnsemble
+    for (m1, m2) in ((2, 3), (3, 2), (4, 2)):
+        M1, K1 = qobj.rand_mprocess(g, c_sys, m1)
+        M2, K2 = qobj.rand_mprocess(g, c_sys, m2)
+        rho = qobj.rand_density(g, d)
+        e1 = compose_qoperations(M1, qobj.State(c_sys, qobj.vec_of(c_sys, rho)))
+        e2 = compose_qoperations(M2, e1)
+        refs, labels = [], []
+        for i in range(m1):
+            r1 = K1[i][0] @ rho @ K1[i][0].conj().T
+            for j in range(m2):
+                r2 = K2[j][0] @ r1 @ K2[j][0].conj().T
+                refs.append(qobj.vec_of(c_sys, r2 / np.trace(r2).real)); labels.append(1000 * i + j)
+        got = [_label(s_.vec, refs) for s_ in e2.states]
+        a = "ok " + ilist([labels[k] if k >= 0 else -1 for k in got])
+        pend.append(("extend", (m1, m2), a, drv.ask("extend", m1, m2)))
+        ctx.case(("extend", m1, m2), nontrivial=True); ctx.count("ensemble extend-loop cases")
+    # --- nested: order of the members of StateEnsemble⊗StateEnsemble
+    c1, c2 = qobj.csys("qubit", names=(0,)), qobj.csys("qubit", names=(1,))
+    for (n1, n2) in ((2, 3), (3, 2)):
+        A = [qobj.State(c1, qobj.vec_of(c1, qobj.rand_density(g, 2))) for _ in range(n1)]
+        B = [qobj.State(c2, qobj.vec_of(c2, qobj.rand_density(g, 2))) for _ in range(n2)]
+        ea = StateEnsemble(A, MultinomialDistribution(np.full(n1, 1.0 / n1), (n1,)))
+        eb = StateEnsemble(B, MultinomialDistribution(np.full(n2, 1.0 / n2), (n2,)))
+        prod_ = tensor_product(ea, eb)
+        refs = [tensor_product(a_, b_).vec for a_ in A for b_ in B]
+        labels = [1000 * i + j for i in range(n1) for j in range(n2)]
+        got = [_label(s_.vec, refs) for s_ in prod_.states]
+        a = "ok " + ilist([labels[k] if k >= 0 else -1 for k in got])
+        pend.append(("nested", (n1, n2), a, drv.ask("nested", n1, n2)))
+        ctx.case(("nested", n1, n2), nontrivial=True); ctx.count("ensemble nested-loop cases")
 
 
 # ----------------------------------------------------------------------------- oracle
@@ -291,6 +368,8 @@ def oracle(ctx, volume=1):
     projective_ensembles(ctx)
     prob_dist_access(ctx)
     ensemble_products(ctx)
+    documented_thresholds(ctx)
+    ensemble_shapes_and_thresholds(ctx)
 
 
 def ensembles(ctx, volume=1):
@@ -499,6 +578,162 @@ def _ensemble_ok(e1, e2, K1, K2, rho, m1, m2):
                     ok &= e2.state((i, j)) is e2.states[i * m2 + j]
         return bool(ok)
 
+
+
+def documented_thresholds(ctx):
+    """"both stay normalised with the documented zero threshold": the documented defaults (1e-8 for the constructor's zero threshold
+    and for validate_prob_dist's absolute tolerance) decide, and an explicitly passed threshold is honoured; falsy eps_zero means default."""
+    from quara.math.probability import validate_prob_dist
+    doc = 1e-8
+    for shape in ((4,), (2, 3), (3, 2, 2)):
+        n = int(np.prod(shape))
+        for kw, thr in (({}, doc), ({"eps_zero": None}, doc), ({"eps_zero": 0.0}, doc), ({"eps_zero": 1e-4}, 1e-4), ({"eps_zero": 1e-11}, 1e-11)):
+            for k in range(n):
+                for rel, zeroed in ((0.3, True), (3.0, False)):
+                    p = np.full(n, 1.0 / (n - 1)); p[k] = 0.0
+                    p = p * (1 - rel * thr); p[k] = rel * thr
+                    rep = {"kind": "threshold", "shape": list(shape), "kwargs": {a: b for a, b in kw.items()}, "index": k, "entry": rel * thr}
+                    ctx.case(("thr", shape, tuple(sorted(kw.items())), k, rel), nontrivial=True)
+                    ctx.count("documented threshold cases")
+                    try:
+                        d = MultinomialDistribution(p.copy(), shape, **kw)
+                    except Exception as e:
+                        ctx.violate("C16/ctor/threshold/raises", f"{type(e).__name__}: {e} for entry {rel}×threshold, {kw}", rep); continue
+                    got = np.asarray(d.ps, dtype=float)
+                    want = p.copy()
+                    if zeroed:
+                        want[k] = 0.0
+                        want = want / want.sum()
+                    if (got[k] == 0.0) != zeroed or not np.allclose(got, want, atol=1e-15, rtol=1e-12) or abs(got.sum() - 1) > 1e-9:
+                        ctx.violate("C16/ctor/threshold", f"entry {rel}× the {'documented default' if thr == doc else 'requested'} threshold {thr:g} "
+                                    f"{'kept' if got[k] != 0 else 'zeroed'}; ps[{k}]={got[k]!r}", rep)
+    # validate_prob_dist: absolute tolerance, documented default 1e-8, explicit eps honoured
+    cases = []
+    for eps_kw, eps in (({}, doc), ({"eps": None}, doc), ({"eps": 1e-3}, 1e-3), ({"eps": 1e-12}, 1e-12)):
+        for scale in (0.3, 3.0):
+            cases.append((eps_kw, "neg", np.array([0.5 + scale * eps, 0.5, -scale * eps]), scale > 1))
+            cases.append((eps_kw, "sum", np.array([0.5, 0.25, 0.25 + scale * eps]), scale > 1))
+            cases.append((eps_kw, "sum-low", np.array([0.5, 0.25, 0.25 - scale * eps]), scale > 1))
+    for eps_kw, what, p, must_raise in cases:
+        rep = {"kind": "validate", "kwargs": eps_kw, "what": what, "p": p.tolist()}
+        ctx.case(("validate", tuple(sorted(eps_kw.items())), what, must_raise), nontrivial=True)
+        try:
+            validate_prob_dist(p, **eps_kw)
+            raised = False
+        except ValueError:
+            raised = True
+        if raised != must_raise:
+            ctx.violate(f"C16/validate_prob_dist/{what}", f"{'accepted' if not raised else 'rejected'} {p.tolist()} with {eps_kw or 'default eps'}", rep)
+
+
+def ensemble_shapes_and_thresholds(ctx):
+    """ensembles from measurement processes whose own outcome label is a multi-index (explicit shape, pre-composition, tensor
+    product with a gate), and the documented zero threshold (1e-8 by default, an explicit eps_zero honoured) of such ensembles"""
+    import qobj
+    from quara.objects.operators import compose_qoperations, tensor_product
+    g = ctx.npgen(11)
+    c_sys = qobj.csys("qubit")
+    d = c_sys.dim
+
+    def post(ks, rho):
+        r = sum(k @ rho @ k.conj().T for k in ks)
+        return r, np.trace(r).real
+
+    def check_ens(ens, shape, ref, sig, rep, what):
+        """ref: dict multi-index -> (unnormalised post state, probability)"""
+        try:
+            ok = tuple(ens.prob_dist.shape) == tuple(shape) and len(ens.states) == int(np.prod(shape))
+            if ok:
+                for k, mi in enumerate(itertools.product(*[range(x) for x in shape])):
+                    r, p = ref[mi]
+                    ok = ok and abs(ens.prob_dist[mi] - p) < 1e-9 and abs(ens.prob_dist.ps[k] - p) < 1e-9
+                    if p > 1e-6:
+                        ok = ok and ens.state(mi) is ens.states[k] and np.allclose(ens.state(mi).to_density_matrix(), r / p, atol=1e-7)
+        except Exception as e:  # noqa
+            ok = False
+            what += f" ({type(e).__name__}: {e})"
+        if not ok:
+            ctx.violate(sig, what + f": reported shape {tuple(getattr(ens.prob_dist, 'shape', ()))}, expected {tuple(shape)}", rep)
+
+    for t in range(2 if ctx.quick else 8):
+        M4, K4 = qobj.rand_mprocess(g, c_sys, 4, shape=(2, 2))
+        M3, K3 = qobj.rand_mprocess(g, c_sys, 3)
+        rho = qobj.rand_density(g, d)
+        st = qobj.State(c_sys, qobj.vec_of(c_sys, rho))
+        rep = {"kind": "ensemble-shapes", "seed": ctx.seed, "t": t}
+        ctx.case(("ens-shapes", t), nontrivial=True); ctx.count("multi-index instrument ensembles")
+        for first, Kf, shf, second, Ks, shs, tag in ((M4, K4, (2, 2), M3, K3, (3,), "(2,2)-then-3"), (M3, K3, (3,), M4, K4, (2, 2), "3-then-(2,2)")):
+            ref1, ref2 = {}, {}
+            for a, mia in enumerate(itertools.product(*[range(x) for x in shf])):
+                r1, p1 = post(Kf[a], rho)
+                ref1[mia] = (r1, p1)
+                for b, mib in enumerate(itertools.product(*[range(x) for x in shs])):
+                    ref2[mia + mib] = post(Ks[b], r1)
+            try:
+                e1 = compose_qoperations(first, st)
+                e2 = compose_qoperations(second, e1)
+                pre = compose_qoperations(second, first)
+                e3 = compose_qoperations(pre, st)
+                e4 = compose_qoperations(second, first, st)
+            except Exception as e:  # noqa
+                ctx.violate("C16/ensemble-shapes/raises", f"{tag}: {type(e).__name__}: {e}", rep); continue
+            check_ens(e1, shf, ref1, "C16/ensemble-shapes/once", rep, f"instrument with outcome shape {shf} applied once")
+            check_ens(e2, shf + shs, ref2, "C16/ensemble-shapes/sequential", rep, f"{tag} applied one after the other")
+            if tuple(pre.shape) != tuple(shf + shs):
+                ctx.violate("C16/ensemble-shapes/pre-composed-shape", f"{tag}: pre-composed instrument reports shape {tuple(pre.shape)}", rep)
+            check_ens(e3, shf + shs, ref2, "C16/ensemble-shapes/pre-composed", rep, f"{tag} pre-composed, then applied")
+            check_ens(e4, shf + shs, ref2, "C16/ensemble-shapes/three-argument", rep, f"{tag} via compose(second, first, state)")
+        # tensor product of a multi-index instrument with a gate on another qubit, both operand orders
+        c0, c1 = qobj.csys("qubit", names=(0,)), qobj.csys("qubit", names=(1,))
+        c01 = qobj.csys("qubit", names=(0, 1))
+        A2, KA = qobj.rand_mprocess(g, c0, 2)
+        A3, KB = qobj.rand_mprocess(g, c0, 3)
+        MP = compose_qoperations(A3, A2)           # shape (2, 3) on qubit 0
+        G = qobj.rand_gate(g, c1, kraus_rank=1)
+        KG = None
+        rho0, rho1 = qobj.rand_density(g, 2), qobj.rand_density(g, 2)
+        s0, s1 = qobj.State(c0, qobj.vec_of(c0, rho0)), qobj.State(c1, qobj.vec_of(c1, rho1))
+        g1 = qobj.mat_of(c1, G.hs @ s1.vec)       # the gate's action on rho1, through its own HS matrix
+        ref = {}
+        for i in range(2):
+            r1, _ = post(KA[i], rho0)
+            for j in range(3):
+                r2, p2 = post(KB[j], r1)
+                ref[(i, j)] = (np.kron(r2, g1), p2 * np.trace(g1).real)
+        s01 = tensor_product(s0, s1)
+        for order, build in (("MProcess-x-Gate", lambda: tensor_product(MP, G)), ("Gate-x-MProcess", lambda: tensor_product(G, MP))):
+            try:
+                T = build()
+                eT = compose_qoperations(T, s01)
+            except Exception as e:  # noqa
+                ctx.violate(f"C16/ensemble-shapes/tensor/{order}/raises", f"{type(e).__name__}: {e}", rep); continue
+            if tuple(T.shape) != (2, 3):
+                ctx.violate(f"C16/ensemble-shapes/tensor/{order}/shape", f"product instrument reports shape {tuple(T.shape)} instead of (2, 3)", rep)
+            check_ens(eT, (2, 3), ref, f"C16/ensemble-shapes/tensor/{order}", rep, f"{order} of a (2,3)-shaped instrument with a gate, applied to a product state")
+    # documented zero threshold of ensembles: default 1e-8, explicit eps_zero honoured
+    ks = [[np.diag([1.0, 0.0]).astype(complex)], [np.sqrt(0.7) * np.diag([0.0, 1.0]).astype(complex)], [np.sqrt(0.3) * np.diag([0.0, 1.0]).astype(complex)]]
+    hss = [qobj.hs_of_kraus(c_sys, k) for k in ks]
+    # (an instrument threshold below 1e-8 is shadowed by MultinomialDistribution's own default 1e-8: not demanded here)
+    for kw, thr in (({}, 1e-8), ({"eps_zero": 1e-5}, 1e-5)):
+        M = qobj.MProcess(c_sys, [h.copy() for h in hss], **kw)
+        for q_, zeroed in ((10 * thr, False), (thr, True)):      # entries 7·thr, 3·thr (kept) resp. 0.7·thr, 0.3·thr (zeroed)
+            rho = np.diag([1 - q_, q_]).astype(complex)
+            st = qobj.State(c_sys, qobj.vec_of(c_sys, rho))
+            rep = {"kind": "ensemble-threshold", "kwargs": kw, "q": q_}
+            ctx.case(("ens-threshold", tuple(kw.items()), q_), nontrivial=True); ctx.count("ensemble threshold cases")
+            try:
+                e = compose_qoperations(M, st)
+                ps = np.asarray(e.prob_dist.ps, dtype=float)
+            except Exception as ex:  # noqa
+                ctx.violate("C16/ensemble-threshold/raises", f"{type(ex).__name__}: {ex}", rep); continue
+            want = np.array([1 - q_, 0.7 * q_, 0.3 * q_])
+            if zeroed:
+                want = np.array([1.0, 0.0, 0.0])
+            bad = (ps[1] == 0.0) != zeroed or (ps[2] == 0.0) != zeroed or not np.allclose(ps, want, rtol=1e-9, atol=0.0) \
+                or abs(ps.sum() - 1) > 1e-9
+            if bad:
+                ctx.violate("C16/ensemble-threshold", f"outcome probabilities {0.7 * q_:g}, {0.3 * q_:g} against the "
+                            f"{'documented default' if not kw else 'requested'} threshold {thr:g}: ps = {ps.tolist()}", rep)
 
 def search(ctx):
     oracle(ctx, volume=4)
